@@ -426,14 +426,53 @@ Fixpoint log_tx_disjoint_l (l : list blk) : Prop :=
   end.
 Definition log_tx_disjoint (lg : rlog) : Prop := log_tx_disjoint_l (log_blocks lg).
 
+(** C20_new_leader_seq on a trace: the Ready that makes the replica leader leaves batchSeqNo = lastExec.
+    [pl] is the leader the replica knew before the step (0 at start and after a crash). *)
+Definition st_leader (o : robs) : option N := nth_error (b_st o) 5.
+Definition leader_seq_step (id pl : N) (op : rop) (o : robs) : Prop :=
+  match op with
+  | OReady _ _ _ (Some l) =>
+      l = id -> l <> pl -> match b_st o with
+                          | [] => True
+                          | le :: _ => nth_error (b_st o) 6 = Some le
+                          end
+  | _ => True
+  end.
+Definition leader_seq_step_b (id pl : N) (op : rop) (o : robs) : bool :=
+  match op with
+  | OReady _ _ _ (Some l) =>
+      negb (l =? id) || (l =? pl) || match b_st o with
+                                     | [] => true
+                                     | le :: _ => match nth_error (b_st o) 6 with Some x => x =? le | None => false end
+                                     end
+  | _ => true
+  end.
+Definition next_leader (pl : N) (op : rop) (o : robs) : N :=
+  match op with
+  | OCrash => 0
+  | OReady _ _ _ (Some l) => l
+  | _ => pl
+  end.
+Fixpoint leader_seq (id pl : N) (ops : list rop) (tr : list robs) : Prop :=
+  match ops, tr with
+  | op :: ops', o :: tr' => leader_seq_step id pl op o /\ leader_seq id (next_leader pl op o) ops' tr'
+  | _, _ => True
+  end.
+Fixpoint leader_seq_b (id pl : N) (ops : list rop) (tr : list robs) : bool :=
+  match ops, tr with
+  | op :: ops', o :: tr' => leader_seq_step_b id pl op o && leader_seq_b id (next_leader pl op o) ops' tr'
+  | _, _ => true
+  end.
+
 (** the whole property on a raft trace, as one boolean (the order is the order of the verdict detail) *)
-Definition raft_prop_b (init : N) (lg : rlog) (ops : list rop) (tr : list robs) : N :=
+Definition raft_prop_b (init : N) (id : N) (lg : rlog) (ops : list rop) (tr : list robs) : N :=
   if negb (contiguous_b (shadow_init init) ops tr) then 1
   else if negb (canonical_b init lg tr) then 2
   else if negb (is_prefix_b (executed (shadow_init init) ops tr) (canon_blocks init lg)) then 3
   else if negb (none_skipped_b init lg tr) then 4
   else if negb (tx_once_b tr) then 5
   else if negb (above_executed_b (shadow_init init) ops tr) then 6
+  else if negb (leader_seq_b id 0 ops tr) then 7
   else 0.
 
 (** ** Judge *)
@@ -477,7 +516,7 @@ Definition judge_raft (cs : raft_case) : verdict :=
   match tr with
   | [] => V_domain 0
   | o0 :: tr' =>
-      let p := raft_prop_b (c_init c) lg ops tr' in
+      let p := raft_prop_b (c_init c) (c_id c) lg ops tr' in
       let res := map (fun dd => (dd, run_match dd c lg ops o0 tr')) (subsets d) in
       let matching := find (fun r => match snd r with Some None => true | _ => false end) res in
       if negb (p =? 0) then
